@@ -49,6 +49,44 @@ NonTimeHolds(e, val) ==
     [] OTHER -> EvalB(e, val)
 NTTableAst(e) == [j \in 1..8 |-> NonTimeHolds(e, ValAt(j))]
 
+\* ---- the printed condition is an observation of the statement as well (and the text the next call
+\* re-parses): its plain boolean reading must be the boolean reading of the condition the statement
+\* holds.  Skeletons (harness/suite_c18.go c18Skeleton): AND / OR / parentheses as they stand,
+\* [n |-> "time", lo, hi] for a comparison the real splitter turns into a range, [n |-> "nt", rt] for any
+\* other leaf (truth table under the real EvalBool), [n |-> "bool", b], [n |-> "bad"] for a leaf it rejects.
+RECURSIVE SkHolds(_, _, _)
+SkHolds(sk, t, val) ==
+  CASE sk.n = "par" -> SkHolds(sk.e, t, val)
+    [] sk.n = "and" -> SkHolds(sk.l, t, val) /\ SkHolds(sk.r, t, val)
+    [] sk.n = "or" -> SkHolds(sk.l, t, val) \/ SkHolds(sk.r, t, val)
+    [] sk.n = "bool" -> sk.b
+    [] sk.n = "time" -> InRange(sk.lo, sk.hi, t)
+    [] sk.n = "nt" -> sk.rt[ValIdx(val)]
+    [] OTHER -> FALSE
+RECURSIVE SkBad(_)
+SkBad(sk) == CASE sk.n = "par" -> SkBad(sk.e)
+               [] sk.n \in {"and", "or"} -> SkBad(sk.l) \/ SkBad(sk.r)
+               [] sk.n = "time" -> sk.lo.k = Unmappable.k \/ sk.hi.k = Unmappable.k
+               [] sk.n \in {"bool", "nt"} -> FALSE
+               [] OTHER -> TRUE
+SamePredicate(a, b, grid) == \A t \in grid : \A val \in Vals : SkHolds(a, t, val) = SkHolds(b, t, val)
+\* the printed form (skeleton b of the text parsed back) denotes the predicate of the tree (skeleton a)
+PrintFaithfulSk(a, b, grid) == a = b \/ (~SkBad(a) /\ ~SkBad(b) /\ SamePredicate(a, b, grid))
+
+\* the same on the design's AST records: plain boolean reading of a condition
+RECURSIVE AstHolds(_, _, _)
+AstHolds(e, t, val) ==
+  CASE e.k = "BinaryExpr" ->
+         IF e.Op = "AND" THEN AstHolds(e.LHS, t, val) /\ AstHolds(e.RHS, t, val)
+         ELSE IF e.Op = "OR" THEN AstHolds(e.LHS, t, val) \/ AstHolds(e.RHS, t, val)
+         ELSE IF IsTimeRef(e.LHS) THEN (IF e.RHS.k = "TLit" THEN Rel(e.Op, t, e.RHS.i) ELSE FALSE)
+         ELSE IF IsTimeRef(e.RHS) THEN (IF e.LHS.k = "TLit" THEN Rel(e.Op, e.LHS.i, t) ELSE FALSE)
+         ELSE EvalB(e, val)
+    [] e.k = "ParenExpr" -> AstHolds(e.Expr, t, val)
+    [] OTHER -> EvalB(e, val)
+PrintFaithful(e, grid) == LET back == PO!Reparse(e) IN
+                          back = e \/ \A t \in grid : \A val \in Vals : AstHolds(e, t, val) = AstHolds(back, t, val)
+
 \* grid of a history: around every bound of the initial condition and every window end
 WinEnds(ws) == UNION {{ws[i].s, ws[i].e} : i \in 1..Len(ws)}
 HistGrid(c, ws) == GridOf(BoundsOf(c) \cup WinEnds(ws))
